@@ -1,6 +1,6 @@
 (** Non-vacuity and concrete runs for the C20 theorems. *)
-From Coq Require Import NArith List Sorted Lia.
-From FF Require Import Gen.Consts_kbuild Kbuild.Model Kbuild.Proofs.
+From Coq Require Import NArith List Sorted Lia Permutation.
+From FF Require Import Gen.Consts_kbuild Kbuild.Model Kbuild.Proofs Kbuild.Baseline Kbuild.BaselineProofs.
 Import ListNotations.
 Local Open Scope N_scope.
 
@@ -69,3 +69,10 @@ Proof. vm_compute. reflexivity. Qed.
 Example C20_has_prefix_example :
   has_prefix kbuild_redirectComment (ann [97]) = true /\ has_prefix kbuild_redirectComment nosplit = false.
 Proof. vm_compute. auto. Qed.
+
+(** a permuting sigma other than the identity exists (hypothesis of C20_baseline_content) *)
+Example C20_baseline_content_nonvacuous :
+  (forall ds : list decl, Permutation (rev ds) ds) /\
+  find_redirects_baseline (@rev decl) two_funcs = rev (find_redirects two_funcs) /\
+  length (find_redirects two_funcs) = 2%nat.
+Proof. split; [intros ds; apply Permutation_sym, Permutation_rev|]. vm_compute. auto. Qed.
